@@ -195,6 +195,28 @@ def run(chk):
             if not (np.array_equal(r1, r2) and np.allclose(r1, d.invcdf(p=u), rtol=1e-14)):
                 chk.fail("rnd(seed) == invcdf(uniforms of that seed), reproducible", dict(inp, seed=sd), d.invcdf(p=u).tolist(), r1.tolist())
                 break
+        # density at the lower end of the Weibull support (first point of the default grid)
+        if kind == "wb" and par[2] >= 1.0:
+            with np.errstate(all="ignore"):
+                p_loc = float(d.pdf(x=[par[0]])[0])
+            exp_loc = 1.0 / par[1] if par[2] == 1.0 else 0.0
+            if not (np.isfinite(p_loc) and abs(p_loc - exp_loc) <= 1e-12 * max(1.0, exp_loc)) or not np.all(np.isfinite(d.pdf())):
+                chk.fail("the density is defined on the whole support, also at x = loc (1/scale for shape 1, 0 for shape > 1)", inp, exp_loc, p_loc)
+        # the reported moments follow the instance's parameters (re-assigning a public parameter attribute)
+        fresh_par = (par[0] + 1.5, par[1] * 2.0) + ((par[2] * 1.5 + 0.25,) if kind == "wb" else ())
+        d2 = make(kind, par)
+        _ = (d2.mean, d2.std, d2.skew, d2.kurt)
+        if kind == "gm":
+            d2.location, d2.scale = fresh_par
+        else:
+            d2.loc, d2.scale = fresh_par[0], fresh_par[1]
+            if kind == "wb":
+                d2.shape = fresh_par[2]
+        ref = make(kind, fresh_par)
+        got = [float(getattr(d2, a)) for a in ("mean", "std", "skew", "kurt")]
+        exp = [float(getattr(ref, a)) for a in ("mean", "std", "skew", "kurt")]
+        if not all(close(a, b, 1e-12) for a, b in zip(got, exp)) or not np.allclose(d2.cdf(x=ref.invcdf(p=[0.3, 0.6])), [0.3, 0.6], rtol=1e-9):
+            chk.fail("reported moments are those of the density of the instance's current parameters", dict(inp, reassigned=fresh_par), exp, got)
         # median / mode
         if kind != "wb":
             if not close(float(d.cdf(x=[d.median])[0]), 0.5, 1e-12):
